@@ -167,6 +167,14 @@ class PlainSub2(Plain):
     def hello(self): return "hi"
 class SlotsSub(Slots):
     __slots__ = ()
+class LazyProxy:
+    """answers every attribute lookup (a lazy client / attribute dict): special methods are looked up on the type, not here"""
+    def __getattr__(self, name):
+        return lambda *a, **k: name
+class Fussy:
+    """an object whose attribute fallback fails in its own way"""
+    def __getattr__(self, name):
+        raise RuntimeError("no such thing: " + name)
 class Outer:
     class Mid:
         @dataclasses.dataclass
@@ -419,7 +427,9 @@ def check_catalogue(col, lo=0, step=1):
                               f"name({name}) = {r1[1]!r}, runtime __name__ is {obj.__name__!r}", bucket="name|" + e["kind"])
             rq = getattr(obj, "__qualname__", None)
             r1, _ = call("qualname", obj)
-            if r1[0] == "exc" or (rq is not None and r1[1].rsplit(".", 1)[-1] != rq.rsplit(".", 1)[-1]):
+            # a NewType / value alias is a named object of its own: the runtime's qualified name exactly, whatever it wraps
+            exact = e["kind"] in ("newtype", "alias") and rq is not None and r1[0] == "ok" and r1[1] != rq
+            if r1[0] == "exc" or exact or (rq is not None and r1[1].rsplit(".", 1)[-1] != rq.rsplit(".", 1)[-1]):
                 col.violation("agrees-with-runtime", {"predicate": "qualname", "object": name},
                               f"qualname({name}) = {r1[1]!r}, runtime __qualname__ is {rq!r}", bucket="qualname|" + e["kind"])
         if e["kind"] == "newtype" and e["wrapped"] == 1 and inspect.isclass(res) and not e["subscripted"] and e["abstract_of"] is None:
@@ -506,6 +516,10 @@ def check_special(col):
         ("property", W.__dict__["p"], "isdescriptor", True), ("function", W.__dict__["m"], "isdescriptor", True), ("int", 5, "isdescriptor", False),
         ("int attr", 5, "issimpleattribute", True), ("function", W.__dict__["m"], "issimpleattribute", False), ("class", int, "issimpleattribute", False),
         ("property", W.__dict__["p"], "issimpleattribute", False),
+        # instances whose __getattr__ answers (or fails) for any name: the descriptor protocol is a property of the type
+        ("LazyProxy()", N["LazyProxy"](), "isdescriptor", False), ("Fussy()", N["Fussy"](), "isdescriptor", False),
+        ("LazyProxy()", N["LazyProxy"](), "issimpleattribute", True), ("Fussy()", N["Fussy"](), "issimpleattribute", True),
+        ("LazyProxy()", N["LazyProxy"](), "isproperty", False),
     ]:
         col.ev()
         col.nt(f"{pred}|inst|{name}")
